@@ -1183,6 +1183,74 @@ func H_RowInvariant() {
 	vrt.Reach("rows-checked")
 }
 
+// H_Product (C10): one step of the product of the emitted table of the default
+// mode with the reference position automaton, from the configuration reached by
+// a concrete access string (parameters alen, a0..), for every rune at once.
+// Completed paths that consume report the successor pair (table state,
+// position set); the driver closes the set of pairs, which makes the agreement
+// hold for strings of any length (within one match of the default mode).
+func H_Product() {
+	n := vrt.Param("alen", 0)
+	sm := new(_LexerStateMachine)
+	m := hLexSpec.Modes[0]
+	m.Prepare()
+	var s []bool
+	for i := 0; i < n; i++ {
+		a := rune(vrt.Param(vrt.Name("a", i), 0))
+		if sm.PushRune(a) != 0 {
+			vrt.Assert(false, "access-string-is-consumed")
+			return
+		}
+		s = m.Step(s, a)
+	}
+	r := vrt.Rune("r")
+	vrt.Assume(vrt.And(-1 <= r, r <= 0x10FFFF))
+	got := sm.PushRune(r)
+	s2 := m.Step(s, r)
+	ngc := m.NgComplete(s)
+	should := vrt.And(ref.AnyOf(s2), !ngc)
+	vrt.Assert(vrt.Iff(got == 0, should), "consume-iff-still-a-viable-prefix")
+	if got == 0 {
+		key := vrt.Name("S", sm.state) + ":"
+		for q := range s2 {
+			if s2[q] {
+				key += "1"
+			} else {
+				key += "0"
+			}
+		}
+		vrt.Observe("collect", key)
+		vrt.Reach("step")
+		return
+	}
+	vrt.Reach("stop")
+	win := -1
+	for ri := range m.Rules {
+		if m.Hit(s, ri) {
+			win = ri
+			break
+		}
+	}
+	if win < 0 {
+		if s == nil {
+			vrt.Assert(vrt.Iff(got == 4, r == -1), "eof-only-between-matches-at-end-of-input")
+			vrt.Assert(got == 4 || got == -1, "nothing-matches-is-an-error")
+		} else {
+			vrt.Assert(got == -1, "nothing-matches-is-an-error")
+		}
+		return
+	}
+	rule := m.Rules[win]
+	switch rule.Effect {
+	case ref.EffAccept:
+		vrt.Assert(got == 1 && sm.Token() == rule.Token, "accepts-the-earliest-matching-rule")
+	case ref.EffDiscard:
+		vrt.Assert(got == 2, "discards-for-the-earliest-matching-rule")
+	default:
+		vrt.Assert(got == 3, "accumulates-for-the-earliest-matching-rule")
+	}
+}
+
 // H_TokString (C19): _TokenToString over a symbolic int.
 func H_TokString() {
 	t := vrt.Int("t")
